@@ -146,6 +146,15 @@ theorem applyUndo_sheetInv (s : State) (d : Diff) (hd : diffOK d = true) (h : Sh
   | setState idx old new =>
     simp only [applyUndo]
     exact ⟨by rw [length_modifyAt]; exact hsel, hu, hr⟩
+  | setRowsHidden sheet olds new =>
+    simp only [applyUndo, modSheet]
+    exact ⟨by rw [length_modifyAt]; exact hsel, hu, hr⟩
+  | setColsHidden sheet olds new =>
+    simp only [applyUndo, modSheet]
+    exact ⟨by rw [length_modifyAt]; exact hsel, hu, hr⟩
+  | setCell sheet r c old =>
+    simp only [applyUndo, modSheet]
+    exact ⟨by rw [length_modifyAt]; exact hsel, hu, hr⟩
   | deleteSheet idx old =>
     simp only [applyUndo]
     split
@@ -201,11 +210,87 @@ theorem applyRedo_sheetInv (s : State) (d : Diff) (h : SheetInv s) : SheetInv (a
   | setState idx old new =>
     simp only [applyRedo]
     exact ⟨by rw [length_modifyAt]; exact hsel, hu, hr⟩
+  | setRowsHidden sheet olds new =>
+    simp only [applyRedo, modSheet]
+    exact ⟨by rw [length_modifyAt]; exact hsel, hu, hr⟩
+  | setColsHidden sheet olds new =>
+    simp only [applyRedo, modSheet]
+    exact ⟨by rw [length_modifyAt]; exact hsel, hu, hr⟩
+  | setCell sheet r c old =>
+    simp only [applyRedo, modSheet]
+    exact ⟨by rw [length_modifyAt]; exact hsel, hu, hr⟩
 
 /-- the view setters change neither the sheet count, nor the selected sheet, nor the history -/
 theorem setView_sheetInv {s : State} (v : View) (h : SheetInv s) : SheetInv (setView s v) := by
   rw [sheetInv_iff] at h ⊢
   exact ⟨by rw [setView_sheets_length]; exact h.1, h.2.1, h.2.2⟩
+
+/-- every ui.rs command has this shape, so none of them touches the selected sheet index, the
+    number of sheets or the history -/
+theorem viewOp_sheetInv {s : State} (f : Sheet → Option View) (h : SheetInv s) :
+    SheetInv (viewOp s f) := by
+  unfold viewOp
+  split
+  · exact h
+  · split
+    · exact h
+    · exact setView_sheetInv _ h
+
+theorem modSheet_sheetInv {s : State} (i : Nat) (f : Sheet → Sheet) (h : SheetInv s) :
+    SheetInv (modSheet s i f) := by
+  rw [sheetInv_iff] at h ⊢
+  exact ⟨by unfold modSheet; rw [length_modifyAt]; exact h.1, h.2.1, h.2.2⟩
+
+theorem push_sheetInv {s : State} (d : Diff) (hd : diffOK d = true) (h : SheetInv s) :
+    SheetInv (push s d) := by
+  rw [sheetInv_iff] at h ⊢
+  have := stacks_push (s := s) (d := d) h.2.1 hd
+  exact ⟨h.1, this.1, this.2⟩
+
+theorem winW_sheetInv {s : State} (w : Int) (h : SheetInv s) : SheetInv { s with winW := w } := by
+  rw [sheetInv_iff] at h ⊢; exact h
+
+theorem winH_sheetInv {s : State} (w : Int) (h : SheetInv s) : SheetInv { s with winH := w } := by
+  rw [sheetInv_iff] at h ⊢; exact h
+
+theorem hideRows_sheetInv (s : State) (sheet : Nat) (a b : Int) (hid : Bool) (h : SheetInv s) :
+    SheetInv (hideRows s sheet a b hid) := by
+  unfold hideRows
+  split
+  · exact h
+  · split
+    · dsimp only
+      split
+      · split
+        · exact modSheet_sheetInv _ _ h
+        · exact push_sheetInv _ rfl (viewOp_sheetInv _ (viewOp_sheetInv _ (modSheet_sheetInv _ _ h)))
+      · exact push_sheetInv _ rfl (modSheet_sheetInv _ _ h)
+    · exact h
+
+theorem hideCols_sheetInv (s : State) (sheet : Nat) (a b : Int) (hid : Bool) (h : SheetInv s) :
+    SheetInv (hideCols s sheet a b hid) := by
+  unfold hideCols
+  split
+  · exact h
+  · split
+    · dsimp only
+      split
+      · split
+        · exact modSheet_sheetInv _ _ h
+        · exact push_sheetInv _ rfl (viewOp_sheetInv _ (viewOp_sheetInv _ (modSheet_sheetInv _ _ h)))
+      · exact push_sheetInv _ rfl (modSheet_sheetInv _ _ h)
+    · exact h
+
+theorem input_sheetInv (s : State) (sheet : Nat) (r c : Int) (h : SheetInv s) :
+    SheetInv (input s sheet r c) := by
+  unfold input
+  split
+  · split
+    · exact h
+    · split
+      · exact h
+      · exact push_sheetInv _ rfl (modSheet_sheetInv _ _ h)
+  · exact h
 
 /-- **the selected sheet exists after every modelled command** (all of them, without exception) -/
 theorem sheet_step (s : State) (cmd : Cmd) (h : SheetInv s) : SheetInv (step s cmd) := by
@@ -215,23 +300,20 @@ theorem sheet_step (s : State) (cmd : Cmd) (h : SheetInv s) : SheetInv (step s c
     simp only [step]
     exact ⟨by rw [selSheet_sheets]; exact selSheet_lt _ _ h.1, by rw [selSheet_undo]; exact h.2.1,
       by rw [selSheet_redo]; exact h.2.2⟩
-  | selCell r c =>
-    simp only [step, selCell]
-    repeat' split
-    all_goals first | exact setView_sheetInv _ h | exact h
-  | selRange r1 c1 r2 c2 =>
-    simp only [step, selRange]
-    repeat' split
-    all_goals first | exact setView_sheetInv _ h | exact h
-  | arrow d =>
-    simp only [step, arrow]
-    generalize arrowTarget _ d = x
-    repeat' split
-    all_goals first | exact setView_sheetInv _ h | exact h
-  | area r c =>
-    simp only [step, area]
-    repeat' split
-    all_goals first | exact setView_sheetInv _ h | exact h
+  | selCell r c => exact viewOp_sheetInv _ h
+  | selRange r1 c1 r2 c2 => exact viewOp_sheetInv _ h
+  | arrow d => exact viewOp_sheetInv _ h
+  | area r c => exact viewOp_sheetInv _ h
+  | setTopLeft r c => exact viewOp_sheetInv _ h
+  | setWinW w => exact winW_sheetInv w h
+  | setWinH w => exact winH_sheetInv w h
+  | pageDown => exact viewOp_sheetInv _ h
+  | pageUp => exact viewOp_sheetInv _ h
+  | edge d => exact viewOp_sheetInv _ h
+  | expand d => exact viewOp_sheetInv _ h
+  | hideRows sheet a b hid => exact hideRows_sheetInv s sheet a b hid h
+  | hideCols sheet a b hid => exact hideCols_sheetInv s sheet a b hid h
+  | input sheet r c => exact input_sheetInv s sheet r c h
   | newSheet =>
     rw [sheetInv_iff] at h ⊢
     obtain ⟨hsel, hu, hr⟩ := h
@@ -397,96 +479,285 @@ theorem allOK_move {l : List Sheet} {f t : Nat} (h : AllOK l) : AllOK (moveList 
 
 theorem viewOK_default : viewOK View.default = true := by decide
 
-theorem selCell_views (s : State) (r c : Int) (h : AllOK s.sheets) : AllOK (selCell s r c).sheets := by
-  unfold selCell
+/-- the new view computed by a command is well-formed whenever it exists -/
+def Good (o : Option View) : Prop := ∀ v, o = some v → viewOK v = true
+
+theorem good_none : Good none := fun _ h => by cases h
+theorem good_some {v : View} (h : viewOK v = true) : Good (some v) := fun _ e => by cases e; exact h
+theorem good_bind {α : Type} {o : Option α} {f : α → Option View} (h : ∀ x, Good (f x)) :
+    Good (o.bind f) := by
+  intro v e
+  cases o with
+  | none => cases e
+  | some x => exact h x v e
+theorem good_map {α : Type} {o : Option α} {f : α → View} (h : ∀ x, viewOK (f x) = true) :
+    Good (o.map f) := by
+  intro v e
+  cases o with
+  | none => cases e
+  | some x => cases e; exact h x
+theorem good_ite {c : Prop} [Decidable c] {a b : Option View} (ha : Good a) (hb : Good b) :
+    Good (if c then a else b) := by
+  split
+  · exact ha
+  · exact hb
+
+/-- a command of the `viewOp` shape keeps every sheet's cell and range well-formed as soon as the view
+    it computes from a well-formed one is well-formed -/
+theorem viewOp_views (s : State) (f : Sheet → Option View) (h : AllOK s.sheets)
+    (hf : ∀ sh, viewOK sh.view = true → Good (f sh)) : AllOK (viewOp s f).sheets := by
+  unfold viewOp
+  cases hsh : s.sheets[s.selected]? with
+  | none => exact h
+  | some sh =>
+    dsimp only
+    cases hv : f sh with
+    | none => exact h
+    | some v => exact allOK_setView h (hf sh (h sh (List.mem_of_getElem? hsh)) v hv)
+
+/-- scrolling does not matter for the invariant -/
+theorem viewOK_scroll (v : View) (t l : Int) : viewOK { v with top := t, left := l } = viewOK v := rfl
+
+theorem cellView_good (v : View) (r c : Int) : Good (cellView v r c) := by
+  unfold cellView
   by_cases hv : (validCol c && validRow r) = true
   · rw [if_pos hv]
-    cases hsh : s.sheets[s.selected]? with
-    | none => exact h
-    | some sh =>
-      apply allOK_setView h
-      rw [viewOK_iff]
-      rw [Bool.and_eq_true, validCol_iff, validRow_iff] at hv
-      simp only
-      omega
-  · rw [if_neg hv]; exact h
+    apply good_some
+    rw [viewOK_iff]
+    rw [Bool.and_eq_true, validCol_iff, validRow_iff] at hv
+    simp only
+    omega
+  · rw [if_neg hv]; exact good_none
 
-theorem selRange_views (s : State) (r1 c1 r2 c2 : Int) (h : AllOK s.sheets) :
-    AllOK (selRange s r1 c1 r2 c2).sheets := by
-  unfold selRange
+theorem rangeView_good (v : View) (r1 c1 r2 c2 : Int) (hold : viewOK v = true) :
+    Good (rangeView v r1 c1 r2 c2) := by
+  unfold rangeView
   by_cases hv : (validCol c1 && validRow r1 && validCol c2 && validRow r2) = true
   · rw [if_pos hv]
-    cases hsh : s.sheets[s.selected]? with
-    | none => exact h
-    | some sh =>
-      dsimp only
-      by_cases hok : (if r1 = 1 ∧ r2 = LAST_ROW then decide (sh.view.col = c1 ∨ sh.view.col = c2)
-          else if c1 = 1 ∧ c2 = LAST_COLUMN then decide (sh.view.row = r1 ∨ sh.view.row = r2)
-          else decide (sh.view.row = r1 ∨ sh.view.row = r2) && decide (sh.view.col = c1 ∨ sh.view.col = c2)) = true
-      · rw [if_pos hok]
-        apply allOK_setView h
-        have hold := h sh (List.mem_of_getElem? hsh)
-        rw [viewOK_iff] at hold ⊢
-        simp only [Bool.and_eq_true, validCol_iff, validRow_iff] at hv
-        simp only
-        by_cases ha : r1 = 1 ∧ r2 = LAST_ROW
-        · rw [if_pos ha] at hok
+    dsimp only
+    by_cases hok : (if r1 = 1 ∧ r2 = LAST_ROW then decide (v.col = c1 ∨ v.col = c2)
+        else if c1 = 1 ∧ c2 = LAST_COLUMN then decide (v.row = r1 ∨ v.row = r2)
+        else decide (v.row = r1 ∨ v.row = r2) && decide (v.col = c1 ∨ v.col = c2)) = true
+    · rw [if_pos hok]
+      apply good_some
+      rw [viewOK_iff] at hold ⊢
+      simp only [Bool.and_eq_true, validCol_iff, validRow_iff] at hv
+      simp only
+      by_cases ha : r1 = 1 ∧ r2 = LAST_ROW
+      · rw [if_pos ha] at hok
+        simp only [decide_eq_true_eq] at hok
+        unfold LAST_ROW at ha
+        omega
+      · rw [if_neg ha] at hok
+        by_cases hb : c1 = 1 ∧ c2 = LAST_COLUMN
+        · rw [if_pos hb] at hok
           simp only [decide_eq_true_eq] at hok
-          unfold LAST_ROW at ha
+          unfold LAST_COLUMN at hb
           omega
-        · rw [if_neg ha] at hok
-          by_cases hb : c1 = 1 ∧ c2 = LAST_COLUMN
-          · rw [if_pos hb] at hok
-            simp only [decide_eq_true_eq] at hok
-            unfold LAST_COLUMN at hb
-            omega
-          · rw [if_neg hb] at hok
-            simp only [Bool.and_eq_true, decide_eq_true_eq] at hok
-            omega
-      · rw [if_neg hok]; exact h
-  · rw [if_neg hv]; exact h
+        · rw [if_neg hb] at hok
+          simp only [Bool.and_eq_true, decide_eq_true_eq] at hok
+          omega
+    · rw [if_neg hok]; exact good_none
+  · rw [if_neg hv]; exact good_none
 
-theorem arrow_col {v : View} {c : Int} (hold : viewOK v = true) (hv : validCol c = true) :
-    viewOK { v with col := c, r1 := v.row, c1 := c, r2 := v.row, c2 := c } = true := by
+theorem topLeftView_good (v : View) (r c : Int) (hold : viewOK v = true) : Good (topLeftView v r c) := by
+  unfold topLeftView
+  split
+  · exact good_some (by rw [viewOK_scroll]; exact hold)
+  · exact good_none
+
+theorem selCell_views (s : State) (r c : Int) (h : AllOK s.sheets) : AllOK (selCell s r c).sheets :=
+  viewOp_views s _ h fun sh _ => cellView_good sh.view r c
+
+theorem selRange_views (s : State) (r1 c1 r2 c2 : Int) (h : AllOK s.sheets) :
+    AllOK (selRange s r1 c1 r2 c2).sheets :=
+  viewOp_views s _ h fun sh hv => rangeView_good sh.view r1 c1 r2 c2 hv
+
+theorem setTopLeft_views (s : State) (r c : Int) (h : AllOK s.sheets) :
+    AllOK (setTopLeft s r c).sheets :=
+  viewOp_views s _ h fun sh hv => topLeftView_good sh.view r c hv
+
+theorem arrow_col {v : View} {c l : Int} (hold : viewOK v = true) (hv : validCol c = true) :
+    viewOK { v with col := c, r1 := v.row, c1 := c, r2 := v.row, c2 := c, left := l } = true := by
   rw [viewOK_iff] at hold ⊢
   rw [validCol_iff] at hv
   simp only
   omega
 
-theorem arrow_row {v : View} {r : Int} (hold : viewOK v = true) (hv : validRow r = true) :
-    viewOK { v with row := r, r1 := r, c1 := v.col, r2 := r, c2 := v.col } = true := by
+theorem arrow_row {v : View} {r t : Int} (hold : viewOK v = true) (hv : validRow r = true) :
+    viewOK { v with row := r, r1 := r, c1 := v.col, r2 := r, c2 := v.col, top := t } = true := by
   rw [viewOK_iff] at hold ⊢
   rw [validRow_iff] at hv
   simp only
   omega
 
-theorem arrow_views (s : State) (d : Dir) (h : AllOK s.sheets) : AllOK (arrow s d).sheets := by
-  unfold arrow
-  cases hsh : s.sheets[s.selected]? with
-  | none => exact h
-  | some sh =>
-    have hold := h sh (List.mem_of_getElem? hsh)
-    dsimp only
-    generalize arrowTarget sh d = x
-    by_cases hd : d.horizontal = true
-    · rw [if_pos hd]
-      by_cases hv : validCol x = true
-      · rw [if_pos hv]; exact allOK_setView h (arrow_col hold hv)
-      · rw [if_neg hv]; exact h
-    · rw [if_neg hd]
-      by_cases hv : validRow x = true
-      · rw [if_pos hv]; exact allOK_setView h (arrow_row hold hv)
-      · rw [if_neg hv]; exact h
+/-- **arrow keys** (with any hidden rows / columns, any window size, any scroll position) -/
+theorem arrowView_good (winW winH : Int) (sh : Sheet) (d : Dir) (hold : viewOK sh.view = true) :
+    Good (arrowView winW winH sh d) := by
+  unfold arrowView
+  dsimp only
+  generalize arrowTarget sh d = x
+  by_cases hd : d.horizontal = true
+  · rw [if_pos hd]
+    by_cases hv : validCol x = true
+    · rw [if_pos hv]; exact good_map fun l => arrow_col hold hv
+    · rw [if_neg hv]; exact good_none
+  · rw [if_neg hd]
+    by_cases hv : validRow x = true
+    · rw [if_pos hv]; exact good_map fun t => arrow_row hold hv
+    · rw [if_neg hv]; exact good_none
 
+theorem arrow_views (s : State) (d : Dir) (h : AllOK s.sheets) : AllOK (arrow s d).sheets :=
+  viewOp_views s _ h fun sh hv => arrowView_good s.winW s.winH sh d hv
+
+/-- `on_area_selecting` is the one command that needs a hypothesis (`cmdOK`): target on the grid and
+    selected cell between the range start and the target -/
 theorem area_views (s : State) (r c : Int) (h : AllOK s.sheets) (hc : cmdOK s (.area r c) = true) :
     AllOK (area s r c).sheets := by
-  unfold area
+  unfold area viewOp
   unfold cmdOK at hc
   cases hsh : s.sheets[s.selected]? with
   | none => exact h
   | some sh =>
     rw [hsh] at hc
-    exact allOK_setView h hc
+    dsimp only at hc ⊢
+    cases hv : areaView s.winW s.winH sh r c with
+    | none => exact h
+    | some v =>
+      apply allOK_setView h
+      unfold areaView at hv
+      dsimp only at hv
+      cases h1 : areaScroll (colW? sh) s.winW sh.view.left sh.view.col c colFuel with
+      | none => rw [h1] at hv; cases hv
+      | some l =>
+        rw [h1] at hv
+        cases h2 : areaScroll (rowH? sh) s.winH sh.view.top sh.view.row r rowFuel with
+        | none => rw [h2] at hv; cases hv
+        | some t =>
+          rw [h2] at hv
+          cases hv
+          exact hc
+
+/-- the clamped row of the repaired page up / page down is on the grid, whatever the new top row -/
+theorem pageView_ok (v : View) (t : Int) (hold : viewOK v = true) : viewOK (pageView v pageRow t) = true := by
+  rw [viewOK_iff] at hold ⊢
+  unfold pageView pageRow LAST_ROW
+  simp only
+  omega
+
+/-- **page down** keeps the selected cell on the grid and inside the range: for every window
+    height (also 0 or negative), scroll position and set of hidden rows -/
+theorem pageDownView_good (winH : Int) (sh : Sheet) (hold : viewOK sh.view = true) :
+    Good (pageDownView pageRow winH sh) := by
+  unfold pageDownView
+  apply good_bind; intro h0
+  apply good_bind; intro last
+  exact good_ite (good_some (pageView_ok _ _ hold)) good_none
+
+/-- **page up** likewise -/
+theorem pageUpView_good (winH : Int) (sh : Sheet) (hold : viewOK sh.view = true) :
+    Good (pageUpView pageRow winH sh) := by
+  unfold pageUpView
+  apply good_bind; intro h0
+  exact good_map fun first => pageView_ok _ _ hold
+
+/-- **navigate to edge**: the target is validated, so the result is well-formed whatever cells are
+    filled, hidden or scrolled -/
+theorem edgeView_good (winW winH : Int) (sh : Sheet) (d : Dir) : Good (edgeView winW winH sh d) := by
+  unfold edgeView
+  dsimp only
+  generalize edgeTarget sh d (sh.view.row, sh.view.col) = p
+  by_cases h0 : (validRow sh.view.row && validCol sh.view.col) = true
+  · rw [if_pos h0]
+    by_cases h1 : (validRow p.1 && validCol p.2) = true
+    · rw [if_pos h1]
+      apply good_ite good_none
+      apply good_map
+      intro tl
+      rw [viewOK_iff]
+      rw [Bool.and_eq_true, validRow_iff, validCol_iff] at h1
+      simp only
+      omega
+    · rw [if_neg h1]; exact good_none
+  · rw [if_neg h0]; exact good_none
+
+theorem scrolledRange_good (v : View) (t l r1 c1 r2 c2 : Int) (hold : viewOK v = true) :
+    Good (scrolledRange v t l r1 c1 r2 c2) := by
+  unfold scrolledRange
+  intro w e
+  cases h1 : topLeftView v t l with
+  | none => rw [h1] at e; cases e
+  | some v' =>
+    rw [h1, Option.map_some] at e
+    have hv' : viewOK v' = true := topLeftView_good v t l hold v' h1
+    cases h2 : rangeView v' r1 c1 r2 c2 with
+    | none =>
+      rw [h2] at e
+      simp only [Option.getD_none, Option.some.injEq] at e
+      rw [← e]; exact hv'
+    | some v'' =>
+      rw [h2] at e
+      simp only [Option.getD_some, Option.some.injEq] at e
+      rw [← e]; exact rangeView_good v' r1 c1 r2 c2 hv' v'' h2
+
+/-- **keyboard range expansion**: every write goes through the validated range setter -/
+theorem expandView_good (winW winH : Int) (sh : Sheet) (d : Dir) (hold : viewOK sh.view = true) :
+    Good (expandView winW winH sh d) := by
+  unfold expandView
+  dsimp only
+  apply good_ite good_none
+  apply good_ite good_none
+  cases d <;> dsimp only
+  all_goals
+    apply good_ite <;> apply good_bind <;> intro n <;> apply good_ite
+  all_goals first
+    | exact good_none
+    | exact rangeView_good _ _ _ _ _ hold
+    | exact good_ite (scrolledRange_good _ _ _ _ _ _ _ hold) (rangeView_good _ _ _ _ _ hold)
+    | (apply good_bind; intro w
+       exact good_ite (scrolledRange_good _ _ _ _ _ _ _ hold) (rangeView_good _ _ _ _ _ hold))
+
+theorem allOK_modSheet {s : State} {i : Nat} {f : Sheet → Sheet} (h : AllOK s.sheets)
+    (hf : ∀ y, (f y).view = y.view) : AllOK (modSheet s i f).sheets := allOK_modify h hf
+
+theorem hideRows_views (s : State) (sheet : Nat) (a b : Int) (hid : Bool) (h : AllOK s.sheets) :
+    AllOK (hideRows s sheet a b hid).sheets := by
+  unfold hideRows
+  split
+  · exact h
+  · split
+    · dsimp only
+      split
+      · split
+        · exact allOK_modSheet h (fun _ => rfl)
+        · exact selRange_views _ _ _ _ _ (selCell_views _ _ _ (allOK_modSheet h (fun _ => rfl)))
+      · exact allOK_modSheet h (fun _ => rfl)
+    · exact h
+
+theorem hideCols_views (s : State) (sheet : Nat) (a b : Int) (hid : Bool) (h : AllOK s.sheets) :
+    AllOK (hideCols s sheet a b hid).sheets := by
+  unfold hideCols
+  split
+  · exact h
+  · split
+    · dsimp only
+      split
+      · split
+        · exact allOK_modSheet h (fun _ => rfl)
+        · exact selRange_views _ _ _ _ _ (selCell_views _ _ _ (allOK_modSheet h (fun _ => rfl)))
+      · exact allOK_modSheet h (fun _ => rfl)
+    · exact h
+
+theorem input_views (s : State) (sheet : Nat) (r c : Int) (h : AllOK s.sheets) :
+    AllOK (input s sheet r c).sheets := by
+  unfold input
+  split
+  · split
+    · exact h
+    · split
+      · exact h
+      · exact allOK_modSheet h (fun _ => rfl)
+  · exact h
 
 theorem applyUndo_views (s : State) (d : Diff) (h : AllOK s.sheets) : AllOK (applyUndo s d).sheets := by
   cases d with
@@ -512,6 +783,9 @@ theorem applyUndo_views (s : State) (d : Diff) (h : AllOK s.sheets) : AllOK (app
   | setState idx old new =>
     simp only [applyUndo]
     exact allOK_modify h (fun _ => rfl)
+  | setRowsHidden sheet olds new => exact allOK_modify h (fun _ => rfl)
+  | setColsHidden sheet olds new => exact allOK_modify h (fun _ => rfl)
+  | setCell sheet r c old => exact allOK_modify h (fun _ => rfl)
   | deleteSheet idx old =>
     simp only [applyUndo]
     split
@@ -547,6 +821,9 @@ theorem applyRedo_views (s : State) (d : Diff) (h : AllOK s.sheets) : AllOK (app
   | setState idx old new =>
     simp only [applyRedo]
     exact allOK_modify h (fun _ => rfl)
+  | setRowsHidden sheet olds new => exact allOK_modify h (fun _ => rfl)
+  | setColsHidden sheet olds new => exact allOK_modify h (fun _ => rfl)
+  | setCell sheet r c old => exact allOK_modify h (fun _ => rfl)
 
 /-- every command except an unchecked `on_area_selecting` keeps every sheet's cell and range
     well-formed -/
@@ -558,6 +835,16 @@ theorem views_step (s : State) (cmd : Cmd) (h : AllOK s.sheets) (hc : cmdOK s cm
   | selRange r1 c1 r2 c2 => exact selRange_views s r1 c1 r2 c2 h
   | arrow d => exact arrow_views s d h
   | area r c => exact area_views s r c h hc
+  | setTopLeft r c => exact setTopLeft_views s r c h
+  | setWinW w => exact h
+  | setWinH w => exact h
+  | pageDown => exact viewOp_views s _ h fun sh hv => pageDownView_good s.winH sh hv
+  | pageUp => exact viewOp_views s _ h fun sh hv => pageUpView_good s.winH sh hv
+  | edge d => exact viewOp_views s _ h fun sh _ => edgeView_good s.winW s.winH sh d
+  | expand d => exact viewOp_views s _ h fun sh hv => expandView_good s.winW s.winH sh d hv
+  | hideRows sheet a b hid => exact hideRows_views s sheet a b hid h
+  | hideCols sheet a b hid => exact hideCols_views s sheet a b hid h
+  | input sheet r c => exact input_views s sheet r c h
   | newSheet =>
     simp only [step, newSheet, push]
     rw [selSheet_sheets]
@@ -670,5 +957,48 @@ theorem C28_full_false : ¬ C28_full := by
 /-- … and the target is not validated either (F28c): row 0 / column 0 -/
 theorem C28_area_unchecked : ¬ SelInv (run State.init [.selCell 5 5, .area 0 0]) := by
   unfold SelInv; decide
+
+/-! ### page up / page down: the pinned rule and the repair -/
+
+/-- **F28d as a theorem**: with the pinned row rule (`row = new top_row + (row - old top_row)`, no
+    clamping) `on_page_up` moves the selected cell off the grid — view scrolled to row 5, cell on row 2 -/
+theorem pageUp_pinned_leaves_grid :
+    ¬ SelInv (pageUpWith pageRowPinned (run State.init [.setTopLeft 5 1, .selCell 2 1])) := by
+  unfold SelInv; decide +kernel
+
+/-- **F28e as a theorem**: the pinned `on_page_down` moves the selected cell below the last row —
+    window 100 px high, view scrolled to row 1048570, cell on the last row -/
+theorem pageDown_pinned_leaves_grid :
+    ¬ SelInv (pageDownWith pageRowPinned
+      (run State.init [.setWinH 100, .setTopLeft 1048570 1, .selCell 1048576 1])) := by
+  unfold SelInv; decide +kernel
+
+/-- the same two histories with the repaired commands end on the grid (rows 1 and 1048576) -/
+theorem page_repaired_witnesses :
+    ((run State.init [.setTopLeft 5 1, .selCell 2 1, .pageUp]).sheets.map fun sh => sh.view.row) = [1]
+    ∧ ((run State.init [.setWinH 100, .setTopLeft 1048570 1, .selCell 1048576 1, .pageDown]).sheets.map
+        fun sh => (sh.view.row, sh.view.top)) = [(1048576, 1048574)] := by
+  decide +kernel
+
+/-- **every navigation command, for all states and arguments**: from a state satisfying the
+    invariant, page up / page down (any window height, any scroll position, any hidden rows), the
+    arrow keys, navigate-to-edge (any filled cells), keyboard range expansion, scrolling, window
+    resizing, hiding / unhiding rows and columns (any band, valid or not) and typing keep the
+    invariant — no hypothesis on the window sizes is needed -/
+theorem nav_step (s : State) (cmd : Cmd) (h : SelInv s) (hc : ∀ r c, cmd ≠ .area r c) :
+    SelInv (step s cmd) := by
+  apply sel_step s cmd h
+  cases cmd with
+  | area r c => exact absurd rfl (hc r c)
+  | _ => rfl
+
+/-- non-vacuity: a history through all of them, with hidden bands at the first rows and around the
+    selected cell, a one-row window, filled cells, undo and redo, is inside the domain and ends in a
+    state where the selected cell moved -/
+example : histOK State.init [.hideRows 0 1 3 true, .arrow .up, .selCell 8 2, .hideRows 0 5 7 true,
+    .arrow .up, .setWinH 25, .pageDown, .pageUp, .pageUp, .input 0 9 5, .edge .right, .expand .down,
+    .expand .right, .hideCols 0 1 2 true, .arrow .left, .undo, .undo, .redo, .setTopLeft 40 3, .pageUp,
+    .area 12 7] = true := by
+  decide +kernel
 
 end IronCalc.Selection
